@@ -995,6 +995,8 @@ def resumed_hook(it, fr):
 for _c in EP_CONTRACTS:
     if _c.target.endswith((".connect", ".listen")):
         _c.pre_hook = resumed_hook
+        # native witness: a canonical scenario on the real classes (replay/c13_replay.py), not the solver's model
+        _c.replay = {"driver": "c13_replay:endpoint_" + _c.target.split(".")[-1]}
 
 CONTRACTS = SC_CONTRACTS + DEMUX_CONTRACTS + INB_CONTRACTS + WIRING_CONTRACTS + MGR_FWD_CONTRACTS + EP_CONTRACTS
 
